@@ -6,3 +6,25 @@ From AV Require Import Base.Bytes Base.Outcome Xml.Lexer Xml.LexerProofs.
 Theorem C02_header_attrs_total :
   forall pieces ver enc sa, exists v e s, header_attrs pieces ver enc sa = Val (v, e, s).
 Proof. exact header_attrs_total. Qed.
+
+(* [U] C02_lexer_total: on every input `bs` and in every state `st` the lexer can reach on it (lex_reach: the initial
+   state, closed under successful `next` steps), `next st` (fuel lex_fuel st = remaining length + 1) is neither a panic
+   nor out of fuel; a token step consumes a prefix of the remaining input, the line counter is monotone and grows by at
+   most the line feeds consumed; every step that is not EndOfFile strictly decreases the measure
+   |remaining input| + [a deferred end tag is pending]; every reported line — token or error — lies in
+   [1, 1 + number of LF bytes of the input]. *)
+Theorem C02_lexer_total : forall (bs : list N) (st : lstate), lex_reach bs st ->
+  match next st with
+  | Val (LOk line ev st') =>
+      (1 <= line <= 1 + count_lines bs)%N /\ (l_line st <= line <= l_line st')%N /\
+      (exists consumed, l_rest st = consumed ++ l_rest st' /\ (l_line st' <= l_line st + count_lines consumed)%N) /\
+      match ev with
+      | EvEOF => l_rest st' = [] /\ l_deferred st' = None
+      | _ => (List.length (l_rest st') + match l_deferred st' with Some _ => 1 | None => 0 end
+              < List.length (l_rest st) + match l_deferred st with Some _ => 1 | None => 0 end)%nat
+      end
+  | Val (LErr line e) => (1 <= line <= 1 + count_lines bs)%N
+  | Pan _ => False
+  | Fuel => False
+  end.
+Proof. exact lexer_total_full. Qed.
